@@ -730,11 +730,11 @@ func c12Scripts(c *ctx, p []byte) [][]c12wop {
 		{W(p), F},
 		{W(p), F, C},
 		{W(p), C},
-		{W(p[:half]), W(p[half:]), F, F},                  // double flush
-		{F, W(p), F},                                      // flush with nothing written
-		{W(p[:third]), F, W(p[third:]), F, C},             // write after flush
+		{W(p[:half]), W(p[half:]), F, F},      // double flush
+		{F, W(p), F},                          // flush with nothing written
+		{W(p[:third]), F, W(p[third:]), F, C}, // write after flush
 		{W(p[:third]), W(p[third : 2*third]), F, W(p[2*third:]), F, F, C, C}, // close twice
-		{W(p), F, C, W(p), F},                             // write after close
+		{W(p), F, C, W(p), F}, // write after close
 	}
 	if len(p) < 1000 {
 		var bytewise []c12wop
